@@ -49,6 +49,7 @@ macro_rules! lazy_checks {
                             acc_step = acc_step.rotate_left(3) ^ (*x as u32);
                             vf::check(member($op, *x, &$am, &$bm), 802);
                             if $left_refs { vf::check(vf::ptr_within(x as *const u8, &$a), 804); }
+                            else { vf::check(vf::ptr_within(x as *const u8, &$a) || vf::ptr_within(x as *const u8, &$b), 804); }
                         }
                         None => {}
                     }
